@@ -692,6 +692,9 @@ def run_entry(owner_name, owner, name, f, argtypes, ret):
                             # imath.f(python floats) resolves to the double overload; a float array result may differ from it by
                             # (condition number) x float eps.  Judged only where one float ulp on an input moves the answer less than that.
                             R.cls("o2_illconditioned_skipped")
+                        elif owner is I and is32 and isinstance(got, float) and isinstance(want, float) and (got != got or abs(got) == float("inf")) and inscale > 1e12:
+                            # same cause: the double overload does not overflow where a float product of operands beyond 1e12 can
+                            R.cls("o2_float_range_exceeded_skipped")
                         else:
                             R.fail("elementwise:%s.%s:differs_from_scalar_binding" % (owner_name, name), sig=sigtxt, kinds=kk, n=n, i=i, got=got, want=want)
                             break
